@@ -155,4 +155,146 @@ theorem championWhy_model (weq : W → W → Bool) (hweq : ∀ a, weq a a = true
     cases hm
   · rfl
 
+/-! ### the champion is the head of the adjusted species (Kind A), which is a fittest organism (Kind B) -/
+
+/-- what identifies an organism through the preparation phase: allocation id, genome, elimination mark -/
+def hkey (x : Org W) : Nat × Genome W × Bool := (x.uid, x.genome, x.toEliminate)
+
+/-- **the first organism of a prepared species is the first organism of the species as `adjustFitness` sorted it**
+    (same allocation id, same genome) — provided allocation ids are pairwise distinct, no organism enters the epoch marked
+    for elimination, and the parent cut keeps at least one organism (`numParents ≥ 1`; C09ParentsExact: true in exact
+    arithmetic for a non-negative survival threshold).  Kind A. -/
+theorem prepared_head_is_adjusted_head (o : EpochOpts W) (p p1 : Pop W) (ex : ExecState) (rs rs1 : List Nat)
+    (hnd : (p.species.map (·.id)).Nodup) (hundup : (C02.orgUids p.species).Nodup)
+    (hun : ∀ s ∈ p.species, ∀ x ∈ s.orgs, x.toEliminate = false)
+    (hpar : ∀ s ∈ p.species, 1 ≤ C09.numParents o s.orgs.length)
+    (hprep : prepareForReproduction o p rs = .ok ((p1, ex), rs1)) :
+    ∀ s ∈ p1.species, ∀ champ, s.orgs.head? = some champ →
+      ∃ s0 ∈ p.species, s0.id = s.id ∧ ∃ sa top rest, adjustFitness o s0 = .ok sa ∧ sa.orgs = top :: rest ∧
+        champ.uid = top.uid ∧ champ.genome = top.genome := by
+  obtain ⟨species1, best, tail, e, sorted2, ehlc, doomed, pre, hadj, hsorted, hred, hpre, _, hdoomed, hsp, _, _⟩ :=
+    prepare_decomp o p p1 ex rs rs1 hprep
+  obtain ⟨_, _, hsub, hwb⟩ := chain_gkeys (hkey (W := W)) (by intro t v; rfl) (by intro t; rfl) (by intro t v; rfl)
+    o p species1 best tail e rs sorted2 ehlc rs1 hnd hadj hsorted hred
+  have hmid : (pre.species.map (gkey hkey)).Sublist (species1.map (gkey hkey)) := by rw [hpre, hwb]; exact hsub
+  have hnd1 : (C02.orgUids species1).Nodup := (C02.adjustAll_uids o _ _ hadj).nodup_iff.mpr hundup
+  have hndpre : (C02.orgUids pre.species).Nodup := by
+    rw [uids_of_gkeys hkey (·.1) (fun _ => rfl)] at hnd1 ⊢
+    exact (C09.sublist_flatMap _ hmid).nodup hnd1
+  intro s hs champ hc
+  rw [hsp] at hs
+  obtain ⟨m, hm, rfl⟩ := List.mem_map.mp hs
+  simp only at hc
+  obtain ⟨sa, hsa, hka⟩ := List.mem_map.mp (hmid.subset (List.mem_map_of_mem hm))
+  obtain ⟨s0, hs0, hadj0⟩ := C09.adjustAll_mem o _ _ hadj sa hsa
+  have hid0 : sa.id = s0.id := (C09.adjustFitness_orgs o s0 sa hadj0).1
+  simp only [gkey, Prod.mk.injEq] at hka
+  obtain ⟨hid, horgs⟩ := hka
+  have hcm : champ ∈ m.orgs := (List.mem_filter.mp (mem_of_head? hc)).1
+  cases hmo : m.orgs with
+  | nil => rw [hmo] at hcm; cases hcm
+  | cons tm restm =>
+    cases hso : sa.orgs with
+    | nil => rw [hmo, hso] at horgs; simp at horgs
+    | cons top rest =>
+      rw [hmo, hso] at horgs
+      simp only [List.map_cons, List.cons.injEq, hkey, Prod.mk.injEq] at horgs
+      obtain ⟨⟨e1, e2, e3⟩, _⟩ := horgs
+      obtain ⟨y, hy, _, _, _, hte⟩ := adjustFitness_head o s0 sa top rest hadj0 hso
+      have htop : top.toEliminate = false := by rw [hte (hpar s0 hs0)]; exact hun s0 hs0 y hy
+      have htm : tm.toEliminate = false := by rw [← e3]; exact htop
+      have hnd' := not_doomed pre hndpre m hm tm (by rw [hmo]; simp) htm
+      rw [← hdoomed] at hnd'
+      rw [hmo] at hc
+      simp only [List.filter_cons, hnd', Bool.not_false, ↓reduceIte, List.head?_cons, Option.some.injEq] at hc
+      subst hc
+      exact ⟨s0, hs0, by show s0.id = m.id; rw [← hid0, hid], sa, top, rest, hadj0, hso, e1.symm, e2.symm⟩
+
+section KindB
+variable {K : Type} [Field K] [LinearOrder K] [IsStrictOrderedRing K] [FloorRing K]
+
+/-- **C10 (Kind B): the champion of a prepared species is a fittest organism of the ORIGINAL species.**  In exact
+    arithmetic, for non-negative raw fitness values, positive age significance and a non-negative survival threshold,
+    pairwise distinct allocation ids, unique species ids and no organism marked on entry: the first organism of every
+    species left after `prepareForReproduction` has the allocation id and the genome of an organism `y` of the species
+    with the same id in the population BEFORE the turnover, and no member of that species has a raw fitness above `y`'s. -/
+theorem prepared_head_is_fittest (o : EpochOpts K) (p p1 : Pop K) (ex : ExecState) (rs rs1 : List Nat)
+    (hnd : (p.species.map (·.id)).Nodup) (hundup : (C02.orgUids p.species).Nodup)
+    (hun : ∀ s ∈ p.species, ∀ x ∈ s.orgs, x.toEliminate = false)
+    (hnn : ∀ s ∈ p.species, ∀ x ∈ s.orgs, 0 ≤ x.fitness) (ha : 0 < o.ageSignificance) (hst : 0 ≤ o.survivalThresh)
+    (hprep : prepareForReproduction o p rs = .ok ((p1, ex), rs1)) :
+    ∀ s ∈ p1.species, ∀ champ, s.orgs.head? = some champ →
+      ∃ s0 ∈ p.species, s0.id = s.id ∧ ∃ y ∈ s0.orgs, champ.uid = y.uid ∧ champ.genome = y.genome ∧
+        ∀ x ∈ s0.orgs, x.fitness ≤ y.fitness := by
+  intro s hs champ hc
+  obtain ⟨s0, hs0, hid, sa, top, rest, hadj0, hso, e1, e2⟩ :=
+    prepared_head_is_adjusted_head o p p1 ex rs rs1 hnd hundup hun (fun s _ => C09.numParents_pos o _ hst) hprep s hs champ hc
+  obtain ⟨y, hy, u1, u2, u3, _⟩ := adjustFitness_head o s0 sa top rest hadj0 hso
+  have hmax := (champion_is_fittest o s0 sa top rest hadj0 hso (hnn s0 hs0) ha).2
+  exact ⟨s0, hs0, hid, y, hy, e1.trans u1, e2.trans u2, fun x hx => u3 ▸ hmax x hx⟩
+
+/-- **C10, end to end, stated from the population BEFORE the turnover (Kind B).**  Under the hypotheses of
+    `nextEpoch_keeps_champion` and `prepared_head_is_fittest`: for every species of the prepared population whose quota
+    exceeds five, the species `s0` with the same id in the ORIGINAL population has an organism `y` whose raw fitness no
+    member of `s0` exceeds (the fittest organism; unique when the values are distinct) such that the population returned
+    by `nextEpoch` holds an organism — in one of its species and in its organism list — carrying `y`'s genome
+    unmodified (own id). -/
+theorem nextEpoch_keeps_fittest (o : EpochOpts K) (gen : Int) (p p' p1 : Pop K) (ex : ExecState) (rs rs1 rs' : List Nat)
+    (hu : C02.UidInv p) (hnd : (p.species.map (·.id)).Nodup) (hundup : (C02.orgUids p.species).Nodup)
+    (hz : ScZero p) (hrefs : RefsOkPop p) (hun : ∀ s ∈ p.species, ∀ x ∈ s.orgs, x.toEliminate = false)
+    (hnn : ∀ s ∈ p.species, ∀ x ∈ s.orgs, 0 ≤ x.fitness) (ha : 0 < o.ageSignificance) (hst : 0 ≤ o.survivalThresh)
+    (hprep : prepareForReproduction o p rs = .ok ((p1, ex), rs1))
+    (h : nextEpoch o gen p rs = .ok (p', rs')) :
+    ∀ s ∈ p1.species, s.expectedOffspring > 5 →
+      ∃ s0 ∈ p.species, s0.id = s.id ∧ ∃ y ∈ s0.orgs, (∀ x ∈ s0.orgs, x.fitness ≤ y.fitness) ∧
+        ∃ s' ∈ p'.species, ∃ x ∈ s'.orgs, x.uid ∈ p'.organisms ∧ IsCopy y x := by
+  intro s hs hq
+  obtain ⟨champ, hc, s', hs', x, hx, hlist, hcopy⟩ :=
+    nextEpoch_keeps_champion o gen p p' p1 ex rs rs1 rs' hu hnd hz hrefs hprep h s hs hq
+  obtain ⟨s0, hs0, hid, y, hy, _, hg, hmax⟩ :=
+    prepared_head_is_fittest o p p1 ex rs rs1 hnd hundup hun hnn ha hst hprep s hs champ hc
+  refine ⟨s0, hs0, hid, y, hy, hmax, s', hs', x, hx, hlist, ?_⟩
+  obtain ⟨i, hi⟩ := hcopy
+  exact ⟨i, by rw [hi, hg]⟩
+
+/-- **C10 (Kind B): the model's epoch passes `PopSpec.fittestWhy`** — the predicate the driver evaluates on the
+    implementation's populations before the turnover / after preparation / after the epoch — for every reflexive scalar
+    comparison `weq`. -/
+theorem fittestWhy_model (weq : K → K → Bool) (hweq : ∀ a, weq a a = true)
+    (o : EpochOpts K) (gen : Int) (p p' p1 : Pop K) (ex : ExecState) (rs rs1 rs' : List Nat)
+    (hu : C02.UidInv p) (hnd : (p.species.map (·.id)).Nodup) (hundup : (C02.orgUids p.species).Nodup)
+    (hz : ScZero p) (hrefs : RefsOkPop p) (hun : ∀ s ∈ p.species, ∀ x ∈ s.orgs, x.toEliminate = false)
+    (hnn : ∀ s ∈ p.species, ∀ x ∈ s.orgs, 0 ≤ x.fitness) (ha : 0 < o.ageSignificance) (hst : 0 ≤ o.survivalThresh)
+    (hprep : prepareForReproduction o p rs = .ok ((p1, ex), rs1))
+    (h : nextEpoch o gen p rs = .ok (p', rs')) : PopSpec.fittestWhy weq p p1 p' = "" := by
+  have hk := nextEpoch_keeps_fittest o gen p p' p1 ex rs rs1 rs' hu hnd hundup hz hrefs hun hnn ha hst hprep h
+  unfold PopSpec.fittestWhy
+  split
+  · rename_i s hfind
+    exfalso
+    have hs := List.mem_of_find?_eq_some hfind
+    have hp := List.find?_some hfind
+    simp only [Bool.and_eq_true, decide_eq_true_eq] at hp
+    obtain ⟨hq, hm⟩ := hp
+    obtain ⟨s0, hs0, hid, y, hy, hmax, s', hs', x, hx, _, hcopy⟩ := hk s hs hq
+    have hf : p.species.find? (fun b => b.id == s.id) = some s0 := by
+      rw [← hid]; exact C09.find_by_own_id p.species hnd s0 hs0
+    rw [hf] at hm
+    simp only [Bool.and_eq_true, Bool.not_eq_true'] at hm
+    have hyf : y ∈ s0.orgs.filter (fun x => s0.orgs.all (fun z => !(Scalar.lt x.fitness z.fitness))) := by
+      refine List.mem_filter.mpr ⟨hy, ?_⟩
+      rw [List.all_eq_true]
+      intro z hz'
+      simp only [Exact.lt_eq, Bool.not_eq_true', decide_eq_false_iff_not, not_lt]
+      exact hmax z hz'
+    have hany : (s0.orgs.filter (fun x => s0.orgs.all (fun z => !(Scalar.lt x.fitness z.fitness)))).any
+        (fun champ => (PopSpec.allOrgs p').any (fun o => PopSpec.genomeEqModId weq champ.genome o.genome)) = true :=
+      List.any_eq_true.mpr ⟨y, hyf, List.any_eq_true.mpr
+        ⟨x, List.mem_flatMap.mpr ⟨s', hs', hx⟩, genomeEqModId_of_isCopy weq hweq y x hcopy⟩⟩
+    rw [hany] at hm
+    cases hm.2
+  · rfl
+
+end KindB
+
 end GoNeat.C10
